@@ -475,7 +475,15 @@ def main(argv):
                                 'bound': 'small-input sweep, %s cases, tier %s: %s' % (mcases.group(1) if mcases else '?', tier, P.get('native_bound', 'see replay/src')),
                                 'wall_s': None, 'checks': int(mcases.group(1)) if mcases else None, 'solver_s': None})
                 if p.returncode not in (0, 1):
-                    undecided.append('native sweep crashed (rc=%s)' % p.returncode)
+                    if p.returncode < 0 and P.get('crash_is_violation'):
+                        # the process driving the REAL library through its safe API was killed by a signal (SIGSEGV, SIGABRT from a
+                        # corrupted heap, SIGBUS): for the memory-safety property that is the violation itself
+                        tail = (p.stderr or '')[-600:]
+                        rec = {'obligation': 'native/crash_signal_%d' % (-p.returncode), 'group': 'native', 'message': 'the native sweep process was killed by signal %d while driving the real code through the safe API' % (-p.returncode),
+                               'at': tail[-200:], 'fn': 'native/crash', 'rendered': tail, 'input': json.dumps({'unit': 'crash', 'signal': -p.returncode, 'stderr_tail': tail})}
+                        violations.append(rec)
+                    else:
+                        undecided.append('native sweep crashed (rc=%s)' % p.returncode)
             except subprocess.TimeoutExpired:
                 native = {'cmd': 'sweep %s' % pid, 'rc': None, 'summary': 'timeout'}
                 bounded.append({'harness': 'native sweep', 'status': 'bounded: not covered (timeout)', 'bound': '', 'wall_s': None, 'checks': None, 'solver_s': None})
